@@ -21,7 +21,7 @@ Definition val_equiv (a b : val) : bool :=
   | VNull, VNull => true
   | VNull, _ | _, VNull => false
   | VDbl n d, VDbl n' d' => Z.leb (Z.abs (n * d' - n' * d) * 2 ^ 40) (Z.abs (n' * d))   (* doubles: relative 2^-40 *)
-  | VDbl n d, VInt z | VInt z, VDbl n d => Z.eqb n (z * d)
+  | VDbl n d, VInt z | VInt z, VDbl n d => Z.leb (Z.abs (n - z * d) * 2 ^ 40) (Z.abs (z * d))
   | _, _ => match cmp_vals a b with Some Datatypes.Eq => true | _ => false end
   end.
 
